@@ -58,7 +58,7 @@ def configs(tier):
     for nsw in (2, 3):
         for nc in (2, 3):
             for T in (1, 2):
-                out.append({'kind': 'channels', 'nsw': nsw, 'nc': nc, 'T': T, 'rate': [1000.0, 30000.0, 25.0][(nsw + nc + T) % 3]})
+                out.append({'kind': 'channels', 'nsw': nsw, 'nc': nc, 'T': T, 'rate': [1000.0, 30000.0, 2500.0][(nsw + nc + T) % 3]})
     for n in ((1, 2, 3) if quick else (1, 2, 3, 4)):
         for variant in (0, 1):
             out.append({'kind': 'depths', 'n': n, 'variant': variant})
